@@ -531,6 +531,22 @@ def c02(tier):
                 other = sorted(n for n in reads.get(tgt, ()) if n.split(".")[0] == src.split(".")[0] and n != src)
                 if other:
                     wrong_source.append((sc, e, other))
+    # ---- every arithmetic line in isolation, with operand values at boundaries (equal operands, zero, exact multiples
+    # of 1,000, half cents): the real line definition is called with pre-seeded operand lines, as the repository's tests do
+    iso = isolated_probes(eqs_by_year, tier, sd)
+    n_iso = 0
+    for (year, e, finst, S, status) in iso:
+        sols.append({"S": S, "R": {}, "status": status})
+        places = (lt_cache.setdefault(year, line_types(year)).get((e["form"], e["line"])) or ("", 2))[1]
+        tol = 50 if (places == 0 and e["op"] in ("carry", "mul", "mull", "min", "minconst", "same")) else 0
+        full = lambda l: "%s.%s" % (finst, l)
+        rec = {"eid": 0, "op": "subx" if e.get("exact_sub") else e["op"], "line": full(e["line"]), "args": [full(a) for a in e.get("args", [])], "src": "",
+               "floor": bool(e.get("floor")), "cap0": bool(e.get("cap0")), "num": e.get("num", 0), "den": e.get("den", 1), "k": e.get("k", 0), "tol": tol,
+               "consts": e.get("consts", [0, 0, 0, 0, 0]), "cond": "", "condis": 0}
+        eqs.append(rec)
+        inst.append({"sol": len(sols), "eq": len(eqs)})
+        meta.append(({"year": year, "sid": "isolated line probe", "request": [], "given": {"operands_cents": {k2: v2 for k2, v2 in S.items()}, "status": status}}, e, finst))
+        n_iso += 1
     work = common.mkwork()
     try:
         path = os.path.join(work, "lines.json")
@@ -560,7 +576,95 @@ def c02(tier):
            "rule": "every equation (generated from the instruction text of the bundled IRS templates, or hand-transcribed with a citation) x every explored solution (complete or partial) that holds the line and its operands; "
                    "distinct = distinct (year, form, line, rule) exercised at least once",
            "samples": [{"equation": {k: v for k, v in meta[0][1].items()}, "scenario": meta[0][0]["sid"]}] if meta else [{"none": True}],
-           "equations": stats, "solutions": len(sols), "instances_skipped_operand_absent": skipped, "carries_from_another_line_of_the_source_form": len(wrong_source), "states": res.distinct,
+           "equations": stats, "isolated_line_probes": n_iso, "solutions": len(sols), "instances_skipped_operand_absent": skipped, "carries_from_another_line_of_the_source_form": len(wrong_source), "states": res.distinct,
            "explanation": "TLC evaluates Lines.tla on every equation instance in integer cents"}
     return rep, "exploration", cov, ["hand-transcribed worksheet and NC equations are as good as the transcription (citations in harness/hand_lines.py)",
                                      "an equation is skipped on a solution that lacks one of its operand lines; amounts below $10M; percentages within 1 cent (whole-dollar lines within 50 cents)"]
+
+
+
+def isolated_probes(eqs_by_year, tier, seed_):
+    """-> list of (year, equation, form instance, S in cents, status index): real line definitions evaluated on chosen operand values"""
+    import random
+    import pathexplore
+    import habutax.enum as E
+    from habutax.fields import FieldNotImplemented
+    rng = random.Random(555 + seed_)
+    B = [0.0, 0.01, 1.0, 999.99, 1000.0, 1000.01, 2000.0, 2500.5, 12345.67, 99999.99, 200000.0, 201000.0, 203000.0, 250000.49, 401000.0, 1000000.0]
+    out = []
+
+    class Skip(Exception):
+        pass
+    for year, eqs in eqs_by_year.items():
+        cat = pathexplore.Catalogue(year)
+        en = E.filing_status_2021 if year == 2021 else E.filing_status
+        members = list(en.__members__.values())
+        for e in eqs:
+            if e["op"] not in ("add", "sub", "mul", "mulk", "min", "max", "same", "ceil1000", "max0sub", "minconst", "const") or e.get("cond"):
+                continue
+            cls = cat.classes.get(e["form"])
+            if cls is None:
+                continue
+            inst = (list(getattr(cls, "valid_instances", [])) or [None])[0]
+            finst = e["form"] if inst is None else "%s:%s" % (e["form"], inst)
+            try:
+                form = cat.form(finst)
+            except Exception:     # noqa
+                continue
+            fields = {x.base_name(): x for x in form.fields()}
+            field = fields.get(e["line"])
+            args = e.get("args", [])
+            if field is None or any(a not in fields for a in args):
+                continue
+            statuses = range(1, 6) if e.get("consts") else [1]
+            nvec = (12 if tier == "quick" else 60)
+            vectors = []
+            if len(args) <= 2 and tier != "quick":
+                import itertools
+                vectors = [list(v) for v in itertools.product(B, repeat=len(args))]
+            else:
+                for _ in range(nvec):
+                    vectors.append([rng.choice(B) for _a in args])
+                if len(args) == 2:
+                    vectors += [[b, b] for b in B[:8]] + [[1000.0, 201000.0 - 200000.0], [200000.0, 201000.0], [200000.0, 203000.0], [400000.0, 401000.0]]
+            for st in statuses:
+                for vec in vectors:
+                    vals = {}
+                    for a, x in zip(args, vec):
+                        t = type(fields[a]).__name__
+                        if t == "FloatField" and getattr(fields[a], "_places", 2) == 0:
+                            x = float(round(x))          # a whole-dollar line only ever holds whole dollars
+                        vals["%s.%s" % (finst, a)] = (int(x) % 5 if t == "IntegerField" else (bool(int(x) % 2) if t == "BooleanField" else float(x)))
+
+                    class V(dict):
+                        def __getitem__(s2, k):
+                            k2 = k if "." in k else "%s.%s" % (finst, k)
+                            if k2 not in vals:
+                                raise Skip()
+                            return vals[k2]
+
+                    class I(dict):
+                        def __getitem__(s2, k):
+                            k2 = k if "." in k else "%s.%s" % (finst, k)
+                            if k2.endswith(".filing_status"):
+                                return members[st - 1]
+                            raise Skip()
+                    form._solver = pathexplore.MockSolver(cat, set())
+                    try:
+                        r = field.value(I(), V())
+                    except (Skip, FieldNotImplemented):
+                        continue
+                    except Exception:      # noqa
+                        continue
+                    if isinstance(r, bool) or not isinstance(r, (int, float)):
+                        continue
+                    S = {}
+                    ok = True
+                    for k2, v2 in list(vals.items()) + [("%s.%s" % (finst, e["line"]), r)]:
+                        c = int(round(v2 * 100)) if isinstance(v2, float) else int(v2)
+                        if abs(c) >= 2 ** 31 - 1:
+                            ok = False
+                        S[k2] = c
+                    if ok:
+                        out.append((year, e, finst, S, st))
+    return out
